@@ -132,10 +132,12 @@ def constructor_cases(ctx):
         if np.abs(B[0] - np.eye(d) / np.sqrt(d)).max() > 1e-15 or np.abs(np.einsum('kii->k', B)[1:]).max() > 1e-14:
             fails.append(dict(kind='prop', observable='ggm/first', signature='c14-ggm-first',
                               detail='first element is not 1/sqrt(d) or a later element is not traceless', input=dict(case='ggm', d=d)))
-        nm = 'g%d' % d
-        defs.append((nm, "Definition %s : N*N*N := let O := IOB in tallyC O %s %s (flat_mats (ggm_basis O %d)).\n"
-                     % (nm, tol(1e-15), flat_lit(B), d)))
-        meta.append(dict(case='ggm', d=d))
+        chunk = len(B) if d <= 6 else d
+        for i0 in range(0, len(B), chunk):
+            nm = 'g%d_%d' % (d, i0)
+            defs.append((nm, "Definition %s : N*N*N := let O := IOB in tallyC O %s %s (flat_mats (firstn %d (skipn %d (ggm_basis O %d)))).\n"
+                         % (nm, tol(1e-15), flat_lit(B[i0:i0 + chunk]), chunk, i0, d)))
+            meta.append(dict(case='ggm', d=d))
     return defs, meta, fails
 
 
